@@ -863,3 +863,521 @@ Proof.
       * eapply (step_ok_disconnect p gs c r r2); try eassumption; try reflexivity; [lia|].
         right. split; [exact MU|exact D2].
 Qed.
+
+(* ---------- many ticks ---------- *)
+Definition goods (cs : list choice) : nat := length (filter (fun c => negb (is_bad c)) cs).
+Definition bads (cs : list choice) : nat := length (filter is_bad cs).
+
+Lemma goods_bads : forall cs, (goods cs + bads cs = length cs)%nat.
+Proof.
+  induction cs as [|c cs IH]; [reflexivity|]. unfold goods, bads in *. cbn [filter length].
+  destruct (is_bad c); cbn [negb length]; lia.
+Qed.
+
+Lemma idle_fix : forall p r c, idle p r = true -> tick c p r = r.
+Proof.
+  intros p r c H. unfold idle, tick in *. destruct (r_mode r); [reflexivity| |].
+  - destruct (r_link r); [discriminate|reflexivity].
+  - destruct (r_inbox r); [|discriminate]. destruct (poll p r); [discriminate|reflexivity].
+Qed.
+
+Lemma idle_ticks : forall p cs r, idle p r = true -> ticks cs p r = r.
+Proof.
+  intros p cs. induction cs as [|c cs IH]; intros r H; [reflexivity|].
+  unfold ticks in *. cbn [fold_left]. rewrite idle_fix by exact H. apply IH. exact H.
+Qed.
+
+Lemma mu_zero_idle : forall p gs r, mu p gs r = O -> idle p r = true.
+Proof.
+  intros p gs r H. unfold mu in H. destruct (idle p r) eqn:E; [reflexivity|].
+  unfold idle in E. destruct (r_mode r); [discriminate|lia|]. destruct (r_inbox r) as [|[] ?]; lia.
+Qed.
+
+Lemma ticks_ok : forall p gs cs r, pwf p gs -> gcuts gs -> rinv gs r -> ~ stuck_last gs r ->
+  let r' := ticks cs p r in
+  rinv gs r' /\ ~ stuck_last gs r' /\ (mu p gs r' <= mu p gs r - goods cs)%nat /\
+  r_link r' = r_link r /\ (r_mode r <> RDown -> r_mode r' <> RDown).
+Proof.
+  intros p gs cs. induction cs as [|c cs IH]; intros r W GC I NS.
+  - unfold ticks, goods. cbn [fold_left filter length]. split; [exact I|]. split; [exact NS|]. split; [lia|].
+    split; [reflexivity|]. intros H; exact H.
+  - destruct (tick_step p gs r c W GC I NS) as (I1 & NS1 & M1 & M2 & L1 & D1).
+    destruct (IH (tick c p r) W GC I1 NS1) as (I2 & NS2 & M3 & L2 & D2).
+    unfold ticks in *. cbn [fold_left]. split; [exact I2|]. split; [exact NS2|].
+    split.
+    + unfold goods in *. cbn [filter]. destruct (is_bad c) eqn:B; cbn [negb length].
+      * lia.
+      * destruct (Nat.eq_dec (mu p gs r) 0) as [Z|NZ]; [lia|]. specialize (M2 eq_refl ltac:(lia)). lia.
+    + split; [congruence|]. intros H. apply D2, D1, H.
+Qed.
+
+(* ---------- views ---------- *)
+Definition eff1 (e : entry) : bytes * option bytes :=
+  (w_key e, if w_op e =? OpDel then None else Some (w_val e)).
+
+Lemma flat_hist : forall l, flat (hist l) = map eff1 l.
+Proof.
+  induction l as [|e l IH]; [reflexivity|]. unfold flat, hist in *. cbn [map flat_map].
+  rewrite IH. unfold wop_of, eff1. destruct (w_op e =? OpDel); reflexivity.
+Qed.
+
+Lemma last_effect_app' : forall k a b,
+  last_effect k (a ++ b) = match last_effect k b with Some x => Some x | None => last_effect k a end.
+Proof.
+  intros k a b. induction a as [|[k' v] a IH]; cbn [app last_effect].
+  - destruct (last_effect k b); reflexivity.
+  - rewrite IH. destruct (last_effect k b); reflexivity.
+Qed.
+
+Lemma last_effect_none_keys : forall k l, (forall e, In e l -> w_key e <> k) -> last_effect k (map eff1 l) = None.
+Proof.
+  induction l as [|e l IH]; intros H; [reflexivity|]. cbn [map last_effect]. unfold eff1 at 1.
+  rewrite IH by (intros x Hx; apply H; right; exact Hx).
+  destruct (beq (w_key e) k) eqn:B; [|reflexivity].
+  apply beq_true_iff in B. exfalso. apply (H e); [left; reflexivity|exact B].
+Qed.
+
+Lemma last_effect_some_key : forall k l, last_effect k (map eff1 l) = None -> forall e, In e l -> w_key e <> k.
+Proof.
+  induction l as [|x l IH]; intros H e Hin; [contradiction|]. cbn [map last_effect] in H. unfold eff1 at 1 in H.
+  destruct (last_effect k (map eff1 l)) eqn:E; [discriminate|].
+  destruct Hin as [<-|Hin].
+  - intros K. rewrite K, beq_refl in H. discriminate.
+  - apply IH; [reflexivity|exact Hin].
+Qed.
+
+Lemma view_get_old : forall old L k, incl old L -> view_get (old ++ L) k = view_get L k.
+Proof.
+  intros old L k Hin. unfold view_get, spec_get, latest. rewrite !flat_hist, map_app, last_effect_app'.
+  destruct (last_effect k (map eff1 L)) eqn:E; [reflexivity|].
+  rewrite last_effect_none_keys; [reflexivity|].
+  intros e He. apply (last_effect_some_key k L E). apply Hin. exact He.
+Qed.
+
+Lemma opt_beq_refl : forall x, opt_beq x x = true.
+Proof. intros [x|]; [apply beq_refl|reflexivity]. Qed.
+
+Lemma views_agree_full : forall p r old, r_store r = old ++ p_log p -> incl old (p_log p) ->
+  views_agree p r = true.
+Proof.
+  intros p r old E Hin. unfold views_agree. apply forallb_forall. intros k _.
+  rewrite E, view_get_old by exact Hin. apply opt_beq_refl.
+Qed.
+
+(* an idle, connected, not stuck replica holds the whole log *)
+Lemma idle_converged : forall p gs r, pwf p gs -> gcuts gs -> rinv gs r -> ~ stuck_last gs r ->
+  r_mode r <> RDown -> r_link r = true -> idle p r = true ->
+  r_exp r = nlen gs + 1 /\ views_agree p r = true.
+Proof.
+  intros p gs r W GC [C IM] NS ND LK Hid.
+  assert (E : r_exp r = nlen gs + 1).
+  { unfold idle in Hid. unfold rmode_ok in IM. destruct (r_mode r) eqn:M; [congruence| |].
+    - rewrite LK in Hid. discriminate.
+    - destruct IM as (HS & _ & IB). destruct (r_inbox r) eqn:EI; [|discriminate].
+      unfold poll in Hid. rewrite (cur_live _ _ W) in Hid.
+      destruct (N.ltb_spec (r_start r) (nlen gs)) as [LT|GE].
+      + exfalso. destruct (fetch_groups p gs (r_start r + 1) W GC ltac:(lia)) as [[L F]|(L & n & Hn & Hl & F)]; [lia|].
+        rewrite F in Hid. destruct (concat_seg_cons gs _ n (pw_gwf _ _ W) Hn Hl) as (e0 & tl & Ees).
+        rewrite Ees in Hid. discriminate.
+      + pose proof (ri_exp _ _ C) as [_ E2].
+        destruct (N.eq_dec (r_exp r) (nlen gs + 1)) as [A|NA]; [exact A|].
+        exfalso. apply NS. unfold stuck_last. rewrite M, EI. repeat split; lia. }
+  split; [exact E|].
+  destruct (ri_store _ _ C) as (old & ES & EI).
+  apply (views_agree_full p r old).
+  - rewrite ES, (pw_log _ _ W). f_equal. f_equal. apply firstn_all2. unfold ei, nlen in *. lia.
+  - rewrite (pw_log _ _ W). exact EI.
+Qed.
+
+(* ---------- C14, proved part: bounded convergence against a primary that did not rotate ---------- *)
+Theorem converges_from_invariant : forall p gs r cs F,
+  pwf p gs -> cuts_ok (p_log p) = true -> rinv gs r -> ~ stuck_last gs r ->
+  r_mode r <> RDown -> r_link r = true ->
+  (bads cs <= F)%nat -> (2 * (length gs - ei r) + 3 + F <= length cs)%nat ->
+  let r' := ticks cs p r in
+  views_agree p r' = true /\ forall cs', ticks cs' p r' = r'.
+Proof.
+  intros p gs r cs F W CO I NS ND LK HB HL r'.
+  assert (GC : gcuts gs).
+  { apply cuts_ok_gcuts; [exact (pw_gwf _ _ W)|]. rewrite <- (pw_log _ _ W). exact CO. }
+  destruct (ticks_ok p gs cs r W GC I NS) as (I' & NS' & M' & L' & D').
+  assert (MB : (mu p gs r <= 2 * (length gs - ei r) + 3)%nat).
+  { unfold mu, dist. destruct (idle p r); [lia|]. destruct (r_mode r); [lia|lia|].
+    destruct (r_inbox r) as [|[] ?]; lia. }
+  pose proof (goods_bads cs) as GB.
+  assert (Z : mu p gs (ticks cs p r) = O) by lia.
+  apply mu_zero_idle in Z. fold r' in Z, I', NS', L', D'.
+  destruct (idle_converged p gs r' W GC I' NS' (D' ND) ltac:(congruence) Z) as [_ V].
+  split; [exact V|]. intros cs'. apply idle_ticks. exact Z.
+Qed.
+
+(* ---------- the invariant holds along every run without a log rotation ---------- *)
+Definition noflush (e : event) : Prop := e <> EFlush.
+
+Lemma pwf_init : pwf p_init [].
+Proof. constructor; reflexivity || exact I. Qed.
+
+Lemma rinv_init : rinv [] r_init.
+Proof.
+  split.
+  - constructor; cbn.
+    + lia.
+    + exists []. split; [reflexivity|]. intros x [].
+    + left. split; reflexivity.
+  - reflexivity.
+Qed.
+
+Lemma entries_of_group : forall s w, is_noop w = false ->
+  entries_of s w <> [] /\ const_seq s (entries_of s w).
+Proof.
+  intros s [op k v|ops] H; cbn [entries_of].
+  - split; [discriminate|]. constructor; [reflexivity|constructor].
+  - destruct ops as [|o ops]; [discriminate|]. split; [discriminate|].
+    unfold stamp_ops, const_seq. apply Forall_forall. intros e He. apply in_map_iff in He.
+    destruct He as ([[op k] v] & <- & _). reflexivity.
+Qed.
+
+Lemma pwf_write : forall p gs w, pwf p gs -> is_noop w = false ->
+  pwf (p_write p w) (gs ++ [entries_of (p_next p) w]).
+Proof.
+  intros p gs w [A B C D E] H. destruct (entries_of_group (p_next p) w H) as [G1 G2].
+  unfold p_write. rewrite H, D. constructor; cbn [p_log p_next p_live p_obs_next].
+  - rewrite A, concat_app. cbn [concat]. rewrite app_nil_r. reflexivity.
+  - apply gwf_app. split; [exact B|]. cbn [gwf]. rewrite <- C' || idtac.
+    replace (1 + nlen gs) with (p_next p) by (rewrite C; lia). repeat split; assumption.
+  - rewrite C. unfold nlen. rewrite app_length. cbn [length]. lia.
+  - reflexivity.
+  - reflexivity.
+Qed.
+
+Lemma seg_app_l : forall i n (gs more : list group), (i + n <= length gs)%nat -> seg i n (gs ++ more) = seg i n gs.
+Proof.
+  intros i n gs more H. unfold seg. rewrite skipn_app, firstn_app, skipn_length.
+  replace (n - (length gs - i))%nat with 0%nat by lia. cbn [firstn]. rewrite app_nil_r. reflexivity.
+Qed.
+
+Lemma firstn_app_l : forall i (gs more : list group), (i <= length gs)%nat -> firstn i (gs ++ more) = firstn i gs.
+Proof.
+  intros i gs more H. rewrite firstn_app. replace (i - length gs)%nat with 0%nat by lia.
+  cbn [firstn]. apply app_nil_r.
+Qed.
+
+Lemma rcore_grow : forall gs more r, rcore gs r -> rcore (gs ++ more) r.
+Proof.
+  intros gs more r [[E1 E2] (old & ES & EI) IA].
+  assert (Hei : (ei r <= length gs)%nat) by (unfold ei, nlen in *; lia).
+  constructor.
+  - unfold nlen in *. rewrite app_length. lia.
+  - exists old. rewrite firstn_app_l by exact Hei. split; [exact ES|].
+    intros x Hx. rewrite concat_app. apply in_or_app. left. apply EI. exact Hx.
+  - destruct IA as [A|(G1 & G2 & G3)]; [left; exact A|right].
+    split; [exact G1|]. split; [exact G2|]. rewrite app_nth1 by (unfold ei in *; lia). exact G3.
+Qed.
+
+Lemma inbox_ok_grow : forall gs more r ib, inbox_ok gs r ib -> inbox_ok (gs ++ more) r ib.
+Proof.
+  intros gs more r ib H.
+  assert (Hn : forall x, x < nlen gs -> x < nlen (gs ++ more)).
+  { intros x. unfold nlen. rewrite app_length. lia. }
+  destruct H as [ib FP HP|es n rest Ees Hn' Hl ES FP HP].
+  - apply IB_push; [exact FP|]. intros H. apply Hn, HP, H.
+  - apply (IB_init _ _ _ n); try assumption.
+    + rewrite seg_app_l by exact Hl. exact Ees.
+    + rewrite app_length. lia.
+    + intros H. apply Hn, HP, H.
+Qed.
+
+Lemma inbox_ok_push : forall gs r ib, inbox_ok gs r ib -> r_start r < nlen gs -> inbox_ok gs r (ib ++ [MPush]).
+Proof.
+  intros gs r ib H L. destruct H as [ib FP HP|es n rest Ees Hn' Hl ES FP HP].
+  - apply IB_push; [|intros _; exact L]. apply Forall_app. split; [exact FP|]. constructor; [reflexivity|constructor].
+  - cbn [app]. apply (IB_init _ _ _ n); try assumption; [|intros _; exact L].
+    apply Forall_app. split; [exact FP|]. constructor; [reflexivity|constructor].
+Qed.
+
+(* inbox_ok reads only start and exp of the replica *)
+Lemma inbox_ok_ext : forall gs r r' ib, r_start r' = r_start r -> r_exp r' = r_exp r ->
+  inbox_ok gs r ib -> inbox_ok gs r' ib.
+Proof.
+  intros gs r r' ib A B H.
+  assert (E : ei r' = ei r) by (unfold ei; rewrite B; reflexivity).
+  destruct H as [ib FP HP|es n rest Ees Hn' Hl ES FP HP].
+  - apply IB_push; [exact FP|]. rewrite A. exact HP.
+  - apply (IB_init _ _ _ n); rewrite ?E, ?A, ?B; assumption.
+Qed.
+
+Lemma step_inv : forall p r gs e, pwf p gs -> rinv gs r -> gcuts gs -> noflush e ->
+  exists more, pwf (fst (step (p, r) e)) (gs ++ more) /\ rinv (gs ++ more) (snd (step (p, r) e)).
+Proof.
+  intros p r gs e W [C IM] GC NF. pose proof (conj C IM : rinv gs r) as I.
+  destruct e as [w| |c| | | |]; cbn [step fst snd].
+  - (* write *)
+    destruct (is_noop w) eqn:NW.
+    + exists []. rewrite app_nil_r. cbn [fst snd]. split; assumption.
+    + exists [entries_of (p_next p) w]. cbn [fst snd]. split; [apply pwf_write; assumption|].
+      split.
+      * eapply rcore_ext; [..|apply rcore_grow; exact C]; unfold push_of;
+          destruct (r_mode r); try reflexivity; destruct (p_live p && (r_start r <? obs_seq (p_next p) w)); reflexivity.
+      * unfold rmode_ok, push_of in *. destruct (r_mode r) eqn:M; try (rewrite M; exact IM).
+        destruct IM as (HS & LK & IB).
+        destruct (p_live p && (r_start r <? obs_seq (p_next p) w)) eqn:PU.
+        -- unfold set_inbox. cbn [r_mode r_start r_exp r_link r_inbox]. rewrite M.
+           split; [exact HS|]. split; [exact LK|].
+           apply andb_true_iff in PU. destruct PU as [_ PU]. apply N.ltb_lt in PU.
+           eapply inbox_ok_ext; [| |apply inbox_ok_push; [apply inbox_ok_grow; exact IB|]]; try reflexivity.
+           unfold nlen. rewrite app_length. cbn [length].
+           destruct w as [op k v|ops]; cbn [obs_seq] in PU; [|lia].
+           rewrite (pw_next _ _ W) in PU. unfold nlen in PU. lia.
+        -- rewrite M. split; [exact HS|]. split; [exact LK|]. apply inbox_ok_grow. exact IB.
+  - exfalso. apply NF. reflexivity.
+  - (* tick *)
+    exists []. rewrite app_nil_r. split; [exact W|].
+    destruct (idle p r) eqn:Hid.
+    + rewrite idle_fix by exact Hid. exact I.
+    + assert (NS : ~ stuck_last gs r).
+      { intros (M & EI & S1 & _). unfold idle in Hid. rewrite M, EI in Hid. unfold poll in Hid.
+        rewrite (cur_live _ _ W), S1, N.ltb_irrefl in Hid. discriminate. }
+      destruct (tick_step p gs r c W GC I NS) as (I1 & _). exact I1.
+  - (* start *)
+    exists []. rewrite app_nil_r. split; [exact W|]. destruct (r_mode r) eqn:M; try exact I.
+    split; [|reflexivity]. destruct C as [[E1 E2] (old & ES & EI) IA]. constructor; cbn.
+    + unfold nlen. lia.
+    + exists (r_store r). split; [rewrite app_nil_r; reflexivity|].
+      rewrite ES. intros x Hx. apply in_app_or in Hx. destruct Hx as [Hx|Hx]; [apply EI; exact Hx|].
+      rewrite <- (firstn_skipn (ei r) gs), concat_app. apply in_or_app. left. exact Hx.
+    + left. split; reflexivity.
+  - (* stop *)
+    exists []. rewrite app_nil_r. split; [exact W|].
+    split; [eapply rcore_ext; [..|exact C]; reflexivity|reflexivity].
+  - (* cut *)
+    exists []. rewrite app_nil_r. split; [exact W|].
+    split; [eapply rcore_ext; [..|exact C]; unfold r_cut; destruct (r_mode r); reflexivity|].
+    unfold rmode_ok, r_cut. destruct (r_mode r); reflexivity.
+  - (* heal *)
+    exists []. rewrite app_nil_r. split; [exact W|].
+    split; [eapply rcore_ext; [..|exact C]; reflexivity|].
+    unfold rmode_ok, r_heal in *. cbn [r_mode r_start r_exp r_link r_inbox].
+    destruct (r_mode r); try exact IM. destruct IM as (HS & LK & IB).
+    split; [exact HS|]. split; [reflexivity|]. eapply inbox_ok_ext; [..|exact IB]; reflexivity.
+Qed.
+
+Lemma cut_cond_app : forall k X Y, cut_cond k (X ++ Y) -> cut_cond k X.
+Proof.
+  intros k X Y H. unfold cut_cond in *.
+  destruct (nth_error X (k - 1)) as [x|] eqn:E1; [|exact I].
+  destruct (nth_error X k) as [y|] eqn:E2; [|exact I].
+  rewrite (nth_error_app1 X Y) in H by (apply nth_error_Some; congruence).
+  rewrite (nth_error_app1 X Y) in H by (apply nth_error_Some; congruence).
+  rewrite E1, E2 in H. exact H.
+Qed.
+
+Lemma gcuts_prefix : forall gs more, gcuts (gs ++ more) -> gcuts gs.
+Proof.
+  intros gs more H i Hi. specialize (H i ltac:(rewrite app_length; lia)).
+  rewrite skipn_app, concat_app in H. apply cut_cond_app in H. exact H.
+Qed.
+
+Lemma run_grows : forall evs p r gs, Forall noflush evs -> pwf p gs ->
+  exists more, pwf (fst (run evs (p, r))) (gs ++ more).
+Proof.
+  induction evs as [|e evs IH]; intros p r gs NF W.
+  - exists []. rewrite app_nil_r. exact W.
+  - pose proof (Forall_inv NF) as NF1. pose proof (Forall_inv_tail NF) as NF2.
+    assert (S1 : exists more, pwf (fst (step (p, r) e)) (gs ++ more)).
+    { destruct e as [w| |c| | | |]; cbn [step fst];
+        try (exists []; rewrite app_nil_r; exact W).
+      - destruct (is_noop w) eqn:NW; [exists []; rewrite app_nil_r; exact W|].
+        exists [entries_of (p_next p) w]. cbn [fst]. apply pwf_write; assumption.
+      - exfalso. apply NF1. reflexivity. }
+    destruct S1 as (m1 & W1). unfold run. cbn [fold_left].
+    destruct (step (p, r) e) as [p1 r1] eqn:ES. cbn [fst] in W1.
+    destruct (IH p1 r1 (gs ++ m1) NF2 W1) as (m2 & W2). exists (m1 ++ m2).
+    rewrite app_assoc. exact W2.
+Qed.
+
+Lemma run_inv : forall evs p r gs, Forall noflush evs -> pwf p gs -> rinv gs r ->
+  cuts_ok (p_log (fst (run evs (p, r)))) = true ->
+  exists gs', pwf (fst (run evs (p, r))) gs' /\ rinv gs' (snd (run evs (p, r))).
+Proof.
+  induction evs as [|e evs IH]; intros p r gs NF W I CO.
+  - exists gs. split; assumption.
+  - pose proof (Forall_inv NF) as NF1. pose proof (Forall_inv_tail NF) as NF2.
+    assert (GC : gcuts gs).
+    { destruct (run_grows (e :: evs) p r gs NF W) as (more & Wf).
+      apply (gcuts_prefix gs more). apply cuts_ok_gcuts; [exact (pw_gwf _ _ Wf)|].
+      rewrite <- (pw_log _ _ Wf). exact CO. }
+    destruct (step_inv p r gs e W I GC NF1) as (m1 & W1 & I1).
+    unfold run in *. cbn [fold_left] in *.
+    destruct (step (p, r) e) as [p1 r1] eqn:ES. cbn [fst snd] in W1, I1.
+    apply (IH p1 r1 (gs ++ m1)); assumption.
+Qed.
+
+(* the replica sits in a session that began exactly at the number of the last write (D18d) *)
+Definition last_write_unsent (p : pstate) (r : rstate) : Prop :=
+  r_mode r = RStreaming /\ r_inbox r = [] /\ r_start r = cur p /\ r_exp r = cur p.
+
+(* C14, the part that holds: any history without a log rotation on the primary whose log has no
+   transaction cut by the response limit, ending in a state where the replica is running, the
+   link is up and the last write is not the one numbered like the session start: within
+   2*(entries the replica lacks, in sequence numbers)+3 rounds plus the number of rounds in which
+   a delivery was swallowed or side-lined, the replica's data equals the primary's, and no
+   later round changes the replica. *)
+Theorem converges_partial : forall evs cs F,
+  Forall noflush evs ->
+  let p := fst (run evs sys_init) in
+  let r := snd (run evs sys_init) in
+  cuts_ok (p_log p) = true ->
+  r_mode r <> RDown -> r_link r = true -> ~ last_write_unsent p r ->
+  (bads cs <= F)%nat ->
+  (2 * N.to_nat (p_next p - r_exp r) + 3 + F <= length cs)%nat ->
+  views_agree p (ticks cs p r) = true /\
+  forall cs', ticks cs' p (ticks cs p r) = ticks cs p r.
+Proof.
+  intros evs cs F NF p r CO ND LK NS HB HL.
+  destruct (run_inv evs p_init r_init [] NF pwf_init rinv_init CO) as (gs & W & I).
+  fold sys_init in W, I. fold p in W. fold r in I.
+  assert (NS' : ~ stuck_last gs r).
+  { intros (A & B & C & D). apply NS. unfold last_write_unsent. rewrite (cur_live _ _ W). tauto. }
+  apply (converges_from_invariant p gs r cs F); try assumption.
+  pose proof (ri_exp _ _ (proj1 I)) as [E1 E2]. rewrite (pw_next _ _ W) in HL.
+  unfold ei, nlen in *. lia.
+Qed.
+
+(* non-vacuity: a history with single writes, a delete, a transaction, a replica that joins in
+   the middle and is restarted satisfies every hypothesis of converges_partial *)
+Definition put1 (k v : N) : event := EWrite (WSingle OpPut [k] [v]).
+Definition del1 (k : N) : event := EWrite (WSingle OpDel [k] []).
+Definition tx2 (k1 v1 k2 v2 : N) : event := EWrite (WMulti [(OpPut, [k1], [v1]); (OpPut, [k2], [v2])]).
+Definition tgood (n : nat) : list event := repeat (ETick good) n.
+
+Definition ex_history : list event :=
+  [put1 97 1; put1 98 2; EStart; ETick good; tx2 99 3 100 4; del1 97] ++ tgood 3 ++
+  [EStop; put1 101 5; EStart; put1 102 6; put1 97 7].
+
+Example converges_partial_applies :
+  let p := fst (run ex_history sys_init) in
+  let r := snd (run ex_history sys_init) in
+  Forall noflush ex_history /\ cuts_ok (p_log p) = true /\ r_mode r <> RDown /\ r_link r = true /\
+  ~ last_write_unsent p r /\ views_agree p r = false /\
+  views_agree p (ticks (repeat good 20) p r) = true.
+Proof.
+  split; [repeat constructor; discriminate|]. split; [vm_compute; reflexivity|].
+  split; [vm_compute; discriminate|]. split; [vm_compute; reflexivity|].
+  split; [intros (A & _); vm_compute in A; discriminate|].
+  split; vm_compute; reflexivity.
+Qed.
+
+(* ---------- histories after which a connected replica never converges ---------- *)
+Lemma stuck_forever : forall p r, idle p r = true -> views_agree p r = false ->
+  forall cs, views_agree p (ticks cs p r) = false.
+Proof. intros p r Hid V cs. rewrite idle_ticks by exact Hid. exact V. Qed.
+
+(* what "a connected replica" means for the refutations: running, link up *)
+Definition connected (r : rstate) : Prop := r_mode r <> RDown /\ r_link r = true.
+
+(* D18a: the replica joins, two writes arrive, it has caught up; the primary flushes (its log is
+   rotated); two more writes.  The replica stays where it was under every schedule. *)
+Definition w_rotation : list event :=
+  [EStart; ETick good; put1 97 1; put1 98 2] ++ tgood 6 ++ [EFlush; put1 99 3; put1 100 4].
+
+Theorem rotation_refuted :
+  let p := fst (run w_rotation sys_init) in
+  let r := snd (run w_rotation sys_init) in
+  connected r /\ cuts_ok (p_log p) = true /\ ~ last_write_unsent p r /\
+  forall cs, views_agree p (ticks cs p r) = false.
+Proof.
+  split; [split; [vm_compute; discriminate|vm_compute; reflexivity]|].
+  split; [vm_compute; reflexivity|].
+  split; [intros (_ & _ & A & _); vm_compute in A; discriminate|].
+  apply stuck_forever; vm_compute; reflexivity.
+Qed.
+
+Example rotation_caught_up_before_flush :
+  let s := run ([EStart; ETick good; put1 97 1; put1 98 2] ++ tgood 6) sys_init in
+  views_agree (fst s) (snd s) = true.
+Proof. vm_compute. reflexivity. Qed.
+
+(* D18a: a replica that joins after the rotation gets nothing: every fetch fails on the closed
+   log, the stream ends with an error, the replica reconnects, for ever *)
+Definition w_join_after_rotation : list event :=
+  [put1 97 1; put1 98 2; EFlush; put1 99 3; EStart; ETick good; ETick good].
+
+Theorem join_after_rotation_refuted :
+  let p := fst (run w_join_after_rotation sys_init) in
+  let r := snd (run w_join_after_rotation sys_init) in
+  connected r /\ forall cs, views_agree p (ticks cs p r) = false.
+Proof.
+  cbv zeta. set (p := fst (run w_join_after_rotation sys_init)).
+  set (r := snd (run w_join_after_rotation sys_init)).
+  split; [split; [vm_compute; discriminate|vm_compute; reflexivity]|].
+  set (r2 := tick good p r).
+  assert (T1 : forall c, tick c p r = r2) by (intros [[|] [|]]; vm_compute; reflexivity).
+  assert (T2 : forall c, tick c p r2 = r) by (intros [[|] [|]]; vm_compute; reflexivity).
+  assert (V1 : views_agree p r = false) by (vm_compute; reflexivity).
+  assert (V2 : views_agree p r2 = false) by (vm_compute; reflexivity).
+  assert (H : forall cs, (views_agree p (ticks cs p r) = false) /\ (views_agree p (ticks cs p r2) = false)).
+  { induction cs as [|c cs [IH1 IH2]]; [split; assumption|].
+    unfold ticks in *. cbn [fold_left]. rewrite T1, T2. split; assumption. }
+  intros cs. apply H.
+Qed.
+
+(* D18d: the replica has joined an empty primary; one write.  Its number equals the session's
+   start sequence: not pushed (<= StartSequence), not polled (the poll starts one above) *)
+Definition w_last_write : list event := [EStart; ETick good; put1 107 118].
+
+Theorem last_write_refuted :
+  let p := fst (run w_last_write sys_init) in
+  let r := snd (run w_last_write sys_init) in
+  connected r /\ Forall noflush w_last_write /\ cuts_ok (p_log p) = true /\
+  last_write_unsent p r /\ forall cs, views_agree p (ticks cs p r) = false.
+Proof.
+  split; [split; [vm_compute; discriminate|vm_compute; reflexivity]|].
+  split; [repeat constructor; discriminate|]. split; [vm_compute; reflexivity|].
+  split; [vm_compute; repeat split; reflexivity|].
+  apply stuck_forever; vm_compute; reflexivity.
+Qed.
+
+(* D18e: 99 single writes, then a transaction of two entries, then one more write; the
+   replica joins afterwards.  The first response carries 100 entries and ends inside the
+   transaction; the replica applies them, moves on to the next number and never gets the
+   transaction's second entry *)
+Definition puts (n : nat) : list event := map (fun i => put1 (N.of_nat i) 1) (seq 1 n).
+Definition w_tx_cut : list event :=
+  puts 99 ++ [tx2 200 1 201 2; put1 250 9; EStart] ++ tgood 8.
+
+Theorem tx_cut_refuted :
+  let p := fst (run w_tx_cut sys_init) in
+  let r := snd (run w_tx_cut sys_init) in
+  connected r /\ Forall noflush w_tx_cut /\ cuts_ok (p_log p) = false /\ ~ last_write_unsent p r /\
+  view_get (r_store r) [200] = Some [1] /\ view_get (r_store r) [201] = None /\
+  forall cs, views_agree p (ticks cs p r) = false.
+Proof.
+  split; [split; [vm_compute; discriminate|vm_compute; reflexivity]|].
+  split; [apply Forall_forall; intros e He; vm_compute in He;
+          repeat (destruct He as [<-|He]; [discriminate|]); contradiction|].
+  split; [vm_compute; reflexivity|].
+  split; [intros (_ & _ & A & _); vm_compute in A; discriminate|].
+  split; [vm_compute; reflexivity|]. split; [vm_compute; reflexivity|].
+  apply stuck_forever; vm_compute; reflexivity.
+Qed.
+
+(* ---------- the property at full strength, and why it is only partially proved ---------- *)
+(* every history, every running replica with the link up: some bound after which, under every
+   fair schedule (at most F swallowed / side-lined deliveries), the replica agrees with the
+   primary *)
+Definition converges_statement : Prop :=
+  forall evs, let p := fst (run evs sys_init) in let r := snd (run evs sys_init) in
+  connected r ->
+  forall F, exists bound, forall cs, (bads cs <= F)%nat -> (bound <= length cs)%nat ->
+  views_agree p (ticks cs p r) = true.
+
+Theorem converges_statement_refuted : ~ converges_statement.
+Proof.
+  intros H. destruct last_write_refuted as (C & _ & _ & _ & V).
+  destruct (H w_last_write C 0%nat) as (b & Hb).
+  assert (B0 : bads (repeat good b) = 0%nat).
+  { clear. induction b as [|b IH]; [reflexivity|]. exact IH. }
+  specialize (Hb (repeat good b)). rewrite B0, repeat_length in Hb.
+  specialize (Hb (le_n 0) (le_n b)).
+  rewrite V in Hb. discriminate.
+Qed.
